@@ -779,13 +779,7 @@ package channel
 // Balance arithmetic and sub-allocation lookup (used by the client's update validation: C07, C12)
 // ---------------------------------------------------------------------------
 
-// balSum(s): total of a balance vector; allocSum(a, i): total of asset i over participant balances and locked funds.
-// The summation loops are verified for shape (lengths, freshness, non-nil); that the values are these totals is a
-// trusted postcondition (the ghost totals are functions of the slice, so they are only meaningful in functions that
-// do not overwrite existing amounts - which the frame obligations of each verified function establish).
-//@ ghost func balSum(s []Bal) int
-//@ ghost func allocSum(a Allocation, i int) int
-
+// Totals are real finite sums (bsum, asum below); the summation loops are verified against them.
 //@ pred freshBals(s []Bal) = forall k int :: 0 <= k && k < len(s) ==> s[k] != nil && fresh(s[k])
 
 // bsum(s): the total of a balance vector (a real finite sum; the solver gets one-step unfoldings and the congruence lemma).
@@ -797,7 +791,6 @@ package channel
 //@   requires nonNilBalances(b)
 //@   ensures len(result) == len(b) && fresh(arr(result)) && off(result) == 0 && freshBals(result) && distinctBals(result)
 //@   ensures forall i int :: 0 <= i && i < len(b) ==> val(result[i]) == bsum(b[i])
-//@   trustedensures forall i int :: 0 <= i && i < len(b) ==> val(result[i]) == balSum(b[i])
 //@   loop 1
 //@     modifies totals[*]
 //@     invariant len(totals) == n && n == len(b) && fresh(arr(totals)) && off(totals) == 0
@@ -823,7 +816,6 @@ package channel
 //@   requires nonNilBalances(a.Balances) && nonNilLocked(a.Locked) && forall l int :: 0 <= l && l < len(a.Locked) ==> len(a.Locked[l].Bals) == len(a.Balances)
 //@   ensures len(result) == len(a.Balances) && fresh(arr(result)) && off(result) == 0 && freshBals(result)
 //@   ensures forall i int :: 0 <= i && i < len(a.Balances) ==> val(result[i]) == asum(a, i)
-//@   trustedensures forall i int :: 0 <= i && i < len(a.Balances) ==> val(result[i]) == allocSum(a, i)
 //@   loop 1
 //@     modifies fresh
 //@     invariant len(totals) == len(a.Balances) && fresh(arr(totals)) && off(totals) == 0 && freshBals(totals) && distinctBals(totals)
